@@ -654,6 +654,9 @@ impl Scenario for HeaderFaults {
     fn name(&self) -> &'static str {
         "header-faults"
     }
+    fn light(&self) -> bool {
+        true
+    }
     fn rule(&self) -> String {
         "enumeration of fault points on a stored header: EOF after each of 0..=126 bytes (sync/async, full and one-byte reads with Pending) and every value 0..=255 at each magic byte, the version byte and the three enum bytes (sync/async); distinct = distinct fault points; all are non-trivial".into()
     }
@@ -681,6 +684,9 @@ impl Scenario for HeaderFaults {
 impl Scenario for HeaderRandom {
     fn name(&self) -> &'static str {
         "header-random"
+    }
+    fn light(&self) -> bool {
+        true
     }
     fn rule(&self) -> String {
         "seeded headers: eleven u64 fields from {0,1,2^32,2^63,2^64-1,random}, all valid enum codes, zoom bytes 0..=255, stored coordinate integers from boundaries, small values (±21, ±19 …) and uniform over all 2^32; checks: consumption trace and 127-byte write under short-transfer/Pending schedules, byte-exact layout against the independent encoder, bytes → struct → bytes identity, field values, and degrees → stored integer against the exact-rational nearest rule (incl. half-step ties ± ulps); distinct = distinct serialized cases; all non-trivial".into()
